@@ -365,10 +365,11 @@ type codeBlock struct {
 	LastLine       int
 	labels         map[string]*gotoLabelDesc
 	firstGotoIndex int
+	dbgLocals      []*DbgLocalInfo // debug records of the variables declared in this block
 }
 
 func newCodeBlock(localvars *varNamePool, blabel int, parent *codeBlock, pos ast.PositionHolder, firstGotoIndex int) *codeBlock {
-	bl := &codeBlock{localvars, blabel, parent, false, 0, 0, map[string]*gotoLabelDesc{}, firstGotoIndex}
+	bl := &codeBlock{localvars, blabel, parent, false, 0, 0, map[string]*gotoLabelDesc{}, firstGotoIndex, nil}
 	if pos != nil {
 		bl.LineStart = pos.Line()
 		bl.LastLine = pos.LastLine()
@@ -545,7 +546,9 @@ func (fc *funcContext) BlockLocalVarsCount() int {
 
 func (fc *funcContext) RegisterLocalVar(name string) int {
 	ret := fc.Block.LocalVars.Register(name)
-	fc.Proto.DbgLocals = append(fc.Proto.DbgLocals, &DbgLocalInfo{Name: name, StartPc: fc.Code.LastPC() + 1})
+	info := &DbgLocalInfo{Name: name, StartPc: fc.Code.LastPC() + 1}
+	fc.Proto.DbgLocals = append(fc.Proto.DbgLocals, info)
+	fc.Block.dbgLocals = append(fc.Block.dbgLocals, info)
 	fc.SetRegTop(fc.RegTop() + 1)
 	return ret
 }
@@ -599,8 +602,10 @@ func (fc *funcContext) LeaveBlock() int {
 }
 
 func (fc *funcContext) EndScope() {
-	for _, vr := range fc.Block.LocalVars.List() {
-		fc.Proto.DbgLocals[vr.Index].EndPc = fc.Code.LastPC()
+	// a register number is not an index into DbgLocals (sibling blocks reuse registers);
+	// the scope includes the last instruction emitted so far
+	for _, info := range fc.Block.dbgLocals {
+		info.EndPc = fc.Code.LastPC() + 1
 	}
 }
 
